@@ -393,3 +393,32 @@ Proof. split; [discriminate|]. split; [reflexivity|]. split; [exact RunProofs4.e
   split; [exact rr_rid|]. split; [exact rr_q0s_ok|]. split; [exact rr_qid|]. vm_compute. repeat split; reflexivity. Qed.
 
 Print Assumptions C07_run_files_readable.
+
+(* ==================================================================================================================================
+   APPENDED: THE RUN WITH THE EXECUTABLE SEEDING STAGE (model/Seeding.v, proofs/SeedingProofs1.v)
+
+   C07_run_total quantifies over every seeding function with seeds_ok.  Seeding.seeds_model — vectorise, blur, exact cross-correlation,
+   scipy.signal.find_peaks as COMA calls it, createPeaks, selectPeaks, refine, for every reference and both strands — is such a function
+   (C16_seeds_model_ok), so the theorem instantiates for Seeding.program_run_full, the run model WITHOUT an abstract seeding stage.
+   (An exception inside the seeding stage — resolution < 1, blur < 0, minPeakDistance < resolution, a map without labels — is mapped to
+   "no seed" by seeds_model because Coordinator.seeding has no error value; in the real program it ends the run.  The same instantiation
+   applies to every other run-level theorem: C01_run_rows_valid, C02_run_records, C04_run_confidence, C05, C08, C10, C18_run_files_readable.) *)
+Require Import Seeding SeedingProofs1.
+Theorem C07_run_full_total P sp m maxdiff refs qs : SU P <= 0 -> 0 < MS P ->
+  (forall r, In r refs -> ascending r) -> (forall q, In q qs -> trimmed q) -> NoDup (map mid qs) ->
+  exists o, program_run_full P sp m maxdiff refs qs = Ok o.
+Proof. exact (run_full_total P sp m maxdiff refs qs). Qed.
+
+(* non-vacuity: the run of C07_run_total_nonvacuous with the command line's default seeding parameters and NO captured seeds: the
+   executable seeding stage finds the query (labels 1-6 of the reference, a 30 kb insertion, labels 7-12) on the forward strand; the
+   first pass aligns labels 1-6, the second pass the fragment's labels 4-6 of the second half *)
+Example C07_run_full_nonvacuous :
+  (forall q, In q [ModesExamples.ex_query] -> trimmed q) /\
+  match seeds_res default_sparams [ModesExamples.ex_ref] ModesExamples.ex_query with
+  | Ok l => map (fun s => (mid (sd_ref s), sd_rev s, sd_peaks s)) l = [(1, false, [100480]); (1, true, [95480; 220480])]
+  | Err => False end /\
+  match program_run_full ModesExamples.ex_P default_sparams All_ 110000 [ModesExamples.ex_ref] [ModesExamples.ex_query] with
+  | Ok o => ModesExamples.ex_view o = ([], Some [[(1, 1); (2, 2); (3, 3); (4, 4); (5, 5); (6, 6)]], Some [[(4, 4); (5, 5); (6, 6)]])
+  | Err => False end.
+Proof. split; [exact RunProofs4.ex_query_trimmed|]. vm_compute. split; reflexivity. Qed.
+Print Assumptions C07_run_full_total.
